@@ -11,7 +11,7 @@ from .rsreplay import NativeRunner
 
 PROP = 'C01'
 QUOTAS = {
-    'quick': {'cheap': 2, 'medium': 3, 'heavy': 1, 'F1:cheap': 12, 'F2:medium': 10, 'F6:cheap': 2, 'R:cheap': 5, 'R:medium': 6, 'R:heavy': 1},
+    'quick': {'cheap': 1, 'medium': 2, 'heavy': 0, 'F1:cheap': 8, 'F2:medium': 6, 'F6:cheap': 1, 'R:cheap': 3, 'R:medium': 4},
     'thorough': {'cheap': 150, 'medium': 80, 'heavy': 12, 'F1:cheap': 500, 'F2:medium': 120, 'R:cheap': 60,
                  'R:medium': 70, 'R:heavy': 16},
 }
